@@ -184,6 +184,9 @@ class Sched:
         timeout fires (returns 'timeout')."""
         if self.aborting:
             raise Abort()
+        if timeout is not None and timeout <= 0:
+            # a zero timeout never waits: decide on the spot (no scheduling point)
+            return 'ok' if can_run() else 'timeout'
         me = self.cur
         me.state = BLOCKED
         me.can_run = can_run
@@ -196,8 +199,9 @@ class Sched:
         me.blocked_on = None
         return r
 
-    def choose(self, n, label=None):
-        """Environment choice among n alternatives: enumerated by the explorer at no cost."""
+    def choose(self, n, label=None, costly=False):
+        """Environment choice among n alternatives: enumerated by the explorer at no cost
+        (costly=True: alternative 0 is the default and any other one counts as a deviation)."""
         if self.aborting:
             raise Abort()
         if n <= 1:
@@ -210,7 +214,7 @@ class Sched:
         else:
             c = 0
         self.choices.append(c)
-        self.points.append(('c', n))
+        self.points.append(('k' if costly else 'c', n))
         if self.record:
             self.trace.append((base_name(self.cur.name) if self.cur else '?', 'choose', label, c))
         return c
@@ -820,6 +824,18 @@ _installed = [False]
 _rebound = []   # (module, name, original)
 
 
+def _thread_hash(self):
+    # set iteration order must not depend on memory addresses (ThreadPoolExecutor._threads is a set)
+    h = self.__dict__.get('_mc_hash')
+    if h is None:
+        s = CUR[0]
+        if s is None:
+            return object.__hash__(self)
+        h = s.local['thread_hash_seq'] = s.local.get('thread_hash_seq', 0) + 1
+        self.__dict__['_mc_hash'] = h
+    return h
+
+
 def install(lib_prefixes=('mpservice',)):
     """Replace the blocking primitives process-wide.  Call after importing the library under test."""
     if _installed[0]:
@@ -833,6 +849,7 @@ def install(lib_prefixes=('mpservice',)):
     threading.Thread.start = _sim_thread_start
     threading.Thread.join = _sim_thread_join
     threading.Thread.is_alive = _sim_thread_is_alive
+    threading.Thread.__hash__ = _thread_hash
     _time_mod.sleep = sim_sleep
     _time_mod.perf_counter = sim_now
     _time_mod.monotonic = sim_monotonic
